@@ -193,11 +193,11 @@ for (idle, udp), r in zip(TCASES, run_parallel(TCASES, timing, workers=6)):
     if idle == 2:
         if r['tcp_closed'] is None or r['tcp_closed'] > 2 + 1 + 2.0:
             chk.violation('timeout.timing', 'silent-tcp-tunnel-not-closed-in-time', f'idle=2: silent http tunnel closed at {r["tcp_closed"]}', replay)
-        elif r['tcp_closed'] < 2 - 0.05:
+        elif r['tcp_closed'] < 2 - 0.3:
             chk.violation('timeout.timing', 'tcp-tunnel-closed-early', f'idle=2: closed after {r["tcp_closed"]:.2f}s', replay)
         if r['udp_gone'] is None or r['udp_gone'] > 2 + 1 + 1 + 2.5:
             chk.violation('timeout.timing', 'silent-udp-session-not-closed-in-time', f'udp=2: reverse-udp session gone at {r["udp_gone"]}', replay)
-        elif r['udp_gone'] < 2 - 0.05:
+        elif r['udp_gone'] < 2 - 0.3:
             chk.violation('timeout.timing', 'udp-session-closed-early', f'udp=2: gone after {r["udp_gone"]:.2f}s', replay)
     elif idle == 0:
         if r['tcp_closed'] is not None:
@@ -215,12 +215,20 @@ for (idle, udp), r in zip(TCASES, run_parallel(TCASES, timing, workers=6)):
 # ---- the idle period belongs to the tunnel: a set-up (client handshake, upstream connect / handshake) that takes longer
 #      than the period must not make the freshly established tunnel count as idle already
 SETUP_T, SETUP_DELAY = 2, 3.0
+def late_any(c, a, rec):
+    """an upstream HTTP proxy that answers every CONNECT after SETUP_DELAY seconds, then echoes"""
+    head, rest = recv_head(c, 10)
+    time.sleep(SETUP_DELAY)
+    c.sendall(b'HTTP/1.1 200 OK\r\n\r\n')
+    _echo_loop(c)
+
 def slow_setup(kind):
     up = Origin(fake_http_proxy)
-    hp, sp, ap = free_port(), free_port(), free_port()
-    cfg = {'listeners': [{'name': 'http', 'bind': f'127.0.0.1:{hp}'}, {'name': 'socks', 'bind': f'127.0.0.1:{sp}'}],
-           'connectors': [{'name': 'direct'}, {'name': 'h', 'type': 'http', 'server': '127.0.0.1', 'port': up.port}],
-           'rules': [{'filter': 'request.target.host =~ "late-"', 'target': 'h'}, {'target': 'direct'}],
+    upl = Origin(late_any)
+    hp, sp, ap, slp = free_port(), free_port(), free_port(), free_port()
+    cfg = {'listeners': [{'name': 'http', 'bind': f'127.0.0.1:{hp}'}, {'name': 'socks', 'bind': f'127.0.0.1:{sp}'}, {'name': 'socksl', 'type': 'socks', 'bind': f'127.0.0.1:{slp}'}],
+           'connectors': [{'name': 'direct'}, {'name': 'h', 'type': 'http', 'server': '127.0.0.1', 'port': up.port}, {'name': 'hl', 'type': 'http', 'server': '127.0.0.1', 'port': upl.port}],
+           'rules': [{'filter': 'request.listener == "socksl"', 'target': 'hl'}, {'filter': 'request.target.host =~ "late-"', 'target': 'h'}, {'target': 'direct'}],
            'timeouts': {'idle': SETUP_T, 'udp': SETUP_T}, 'metrics': {'bind': f'127.0.0.1:{ap}', 'ui': None}}
     px = Proxy(cfg, 'c13s')
     px.api_port = ap
@@ -241,6 +249,21 @@ def slow_setup(kind):
             s.sendall(f'CONNECT 127.0.0.1:{echo.port} HTTP/1.1\r\nHost: x'.encode()); time.sleep(SETUP_DELAY); s.sendall(b'\r\n\r\n')
             head, rest = recv_head(s, 5)
             ok = head.startswith(b'HTTP/1.1 200')
+        elif kind == 'socks5 udp associate, client pauses inside its request':
+            s = socket.create_connection(('127.0.0.1', sp), timeout=5)
+            s.sendall(b'\x05\x01\x00')
+            if recv_exact(s, 2, 3) != b'\x05\x00':
+                return {'error': 'method selection'}
+            req = b'\x05\x03\x00' + socks5_addr('0.0.0.0', 0)
+            s.sendall(req[:5]); time.sleep(SETUP_DELAY); s.sendall(req[5:])
+            rep = recv_exact(s, 10, 5)
+            ok = rep is not None and len(rep) == 10 and rep[1] == 0
+        elif kind == 'socks5 udp associate through an upstream proxy that answers late':
+            s, r = socks5_connect(slp, '0.0.0.0', 0, cmd=3, timeout=SETUP_DELAY + 5)
+            ok = r['rep'] == 0
+        elif kind == 'http udp tunnel through an upstream proxy that answers late':
+            s, code, head, rest = http_connect(hp, f'late-{SETUP_DELAY:.0f}.test:80', extra_headers=b'Proxy-Protocol: udp\r\n', timeout=SETUP_DELAY + 5)
+            ok = code == 200
         else:  # the upstream proxy takes its time to answer
             s, code, head, rest = http_connect(hp, f'late-{SETUP_DELAY:.0f}.test:80', timeout=SETUP_DELAY + 5)
             ok = code == 200
@@ -259,25 +282,29 @@ def slow_setup(kind):
         s.close()
         return {'closed_after_established_s': closed, 'unexpected_bytes': len(extra)}
     finally:
-        px.stop(); up.stop()
+        px.stop(); up.stop(); upl.stop()
 
-SETUPS = ['socks5 client pauses inside its request', 'http client pauses inside its request head', 'upstream proxy answers late']
-for kind, r in zip(SETUPS, run_parallel(SETUPS, slow_setup, workers=3)):
+SETUPS = ['socks5 client pauses inside its request', 'http client pauses inside its request head', 'upstream proxy answers late',
+          'socks5 udp associate, client pauses inside its request', 'socks5 udp associate through an upstream proxy that answers late', 'http udp tunnel through an upstream proxy that answers late']
+for kind, r in zip(SETUPS, run_parallel(SETUPS, slow_setup, workers=6)):
     evals += 1
     if isinstance(r, tuple) or 'error' in r:
         machinery(f'slow set-up {kind}: {r}')
     c = r['closed_after_established_s']
     replay = {'timeouts': {'idle': SETUP_T}, 'set_up_takes_s': SETUP_DELAY, 'case': kind, 'observed': r}
-    distinct.add(('slow-setup', kind, c is not None and c < SETUP_T - 0.05))
+    # the client may see the last bytes of a reply written in two small pieces up to a delayed-ACK period (40-200 ms)
+    # after the proxy has handed them to the kernel and started the tunnel: that much of the period may be gone
+    SETUP_SLACK = 0.3
+    distinct.add(('slow-setup', kind, c is not None and c < SETUP_T - SETUP_SLACK))
     if c is None:
-        chk.violation('timeout.timing', 'silent-tcp-tunnel-not-closed-in-time:after-slow-set-up', f'idle={SETUP_T}: {kind}: silent tunnel still open {SETUP_T + 4} s after it was established', replay)
-    elif c < SETUP_T - 0.05:
+        chk.violation('timeout.timing', ('silent-udp-tunnel-not-closed-in-time:after-slow-set-up' if 'udp' in kind else 'silent-tcp-tunnel-not-closed-in-time:after-slow-set-up'), f'idle=udp={SETUP_T}: {kind}: silent tunnel still open {SETUP_T + 4} s after it was established', replay)
+    elif c < SETUP_T - SETUP_SLACK:
         chk.violation('timeout.timing', f'fresh-tunnel-closed-for-idleness:{kind}', f'idle={SETUP_T}, set-up took {SETUP_DELAY} s: the tunnel was closed {c:.2f} s after the client was told it is established', replay)
     samples.append(replay)
 echo.stop(); uecho.close()
 if evals < 30 or len(distinct) < 3:
     machinery(f'vacuous: evals={evals} distinct={len(distinct)}')
 cov = {'evaluations': evals, 'distinct_nontrivial': len(distinct), 'transitions': evals, 'traces_validated_against_impl': evals,
-       'rule': 'real binary: timeouts.idle x timeouts.udp grid (16 cells) x 7 tunnel kinds, idle_timeout reported by /api/live vs configured/default; close timing of silent tcp and udp tunnels with T=2, T=0 and four periods whose millisecond count exceeds 64 bits; tunnels whose set-up (client handshake / upstream answer) takes longer than the period must get a whole period once established',
+       'rule': 'real binary: timeouts.idle x timeouts.udp grid (16 cells) x 7 tunnel kinds, idle_timeout reported by /api/live vs configured/default; close timing of silent tcp and udp tunnels with T=2, T=0 and four periods whose millisecond count exceeds 64 bits; tcp tunnels and udp associations (socks5, http inline) whose set-up (client handshake / upstream answer) takes longer than the period must get a whole period once established',
        'grid_cells': len(grid), 'tunnel_kinds': list(IS_UDP), 'schedule_control': 'kernel', 'samples': samples}
-sys.exit(chk.finish('model_checking', cov, ['E4 part: real clock; late bounds carry 1 s ticker (+1 s GC for the registry) + 2 s slack, early bounds 50 ms']))
+sys.exit(chk.finish('model_checking', cov, ['E4 part: real clock; late bounds carry 1 s ticker (+1 s GC for the registry) + 2 s slack, early bounds 300 ms (a reply written in two small pieces reaches the client up to a delayed-ACK period after the proxy started the tunnel)']))
